@@ -46,15 +46,19 @@ PROPS["C07"] = dict(
 )
 
 PROPS["C10"] = dict(
-    modules=["Proofs.C10", "Proofs.C10Full", "Proofs.C10Trunc"],
+    modules=["Proofs.C10", "Proofs.C10Full", "Proofs.C10Trunc", "Proofs.C10Trans"],
     theorems=['Goflow.C10.parser_table_matches', 'Goflow.C10.guards_cover_indices', 'Goflow.C10.encap_preserves_outer', 'Goflow.C10.icmp_terminal', 'Goflow.C10.icmp_first_only', 'Goflow.C10.encap_rule', 'Goflow.C10.encap_monotone', 'Goflow.C10.layer_sizes',
               'Goflow.C10.full_capture', 'Goflow.C10.full_capture_cfg', 'Goflow.C10.full_capture_plain', 'Goflow.C10.full_capture_v6ext', 'Goflow.C10.full_capture_mpls', 'Goflow.C10.full_capture_tunnel',
               'Goflow.C10.sampleFrame_wf', 'Goflow.C10.sampleTunnel_wf',
               'Goflow.C10.trunc_capture_cfg', 'Goflow.C10.trunc_capture_eq', 'Goflow.C10.expectedAt_mono', 'Goflow.C10.expectedAt_full', 'Goflow.C10.expectedAt_below',
-              'Goflow.C10.trunc_capture', 'Goflow.C10.trunc_capture_cfg_below', 'Goflow.C10.trunc_capture_sizes'],
+              'Goflow.C10.trunc_capture', 'Goflow.C10.trunc_capture_cfg_below', 'Goflow.C10.trunc_capture_sizes',
+              'Goflow.C10Trans.parseEthernet_eq', 'Goflow.C10Trans.parse8021Q_eq', 'Goflow.C10Trans.parseMPLS_eq', 'Goflow.C10Trans.parseIPv4_eq', 'Goflow.C10Trans.parseIPv6_eq',
+              'Goflow.C10Trans.parseIPv6HeaderFragment_eq', 'Goflow.C10Trans.parseIPv6HeaderRouting_eq', 'Goflow.C10Trans.parseTCP_eq', 'Goflow.C10Trans.parseUDP_eq',
+              'Goflow.C10Trans.parseGRE_eq', 'Goflow.C10Trans.parseTeredoDst_eq', 'Goflow.C10Trans.parseGeneve_eq', 'Goflow.C10Trans.parseICMP_eq', 'Goflow.C10Trans.parseICMPv6_eq',
+              'Goflow.C10Trans.translated_parsers_eq', 'Goflow.C10Trans.nextParserEtype_eq', 'Goflow.C10Trans.nextParserProto_eq'],
     generators=[dict(name="C10", quick=150, thorough=10000)],
     harness=["impl"],
-    level_text="Theorems: parser table and loop body equal the regenerated ones; guards cover every index; encapsulation flags along parser chains (encap_rule, encap_monotone, encap_preserves_outer); ICMP rules; layer sizes; full_capture (every well-formed fully captured frame of the grammar, incl. extension headers, MPLS, GRE / IP-in-IP nesting, is reported exactly as the frame specification says); truncated captures: trunc_capture_cfg (for every well-formed frame and every capture length n the dissector reports exactly expectedAt f n) and expectedAt_below / trunc_capture (that message is below the full one: every scalar column unset or the true value, every list column a prefix, one size per reported layer with only the last possibly smaller; Etype / VlanId may be those of an outer L2 header), expectedAt_mono. The frame oracle at every capture length ties model and code.",
+    level_text="Theorems: the bodies of the 14 layer parsers and of the ethertype / protocol dispatchers are TRANSLATED from the Go source into Lean on every run (extract/translate.go, a syntax-directed translation of a Go subset with Go's fixed-width arithmetic and an explicit panic outcome for every index / slice) and proved equal to the hand-written model for every message, byte string and parse configuration (parseX_eq, translated_parsers_eq, nextParserEtype_eq, nextParserProto_eq: no index can go out of range under the parsers' own guards, the loops end within their fuel); parser table and loop body of ParsePacket equal the regenerated ones; guards cover every index; encapsulation flags along parser chains (encap_rule, encap_monotone, encap_preserves_outer); ICMP rules; layer sizes; full_capture (every well-formed fully captured frame of the grammar, incl. extension headers, MPLS, GRE / IP-in-IP nesting, is reported exactly as the frame specification says); truncated captures: trunc_capture_cfg (for every well-formed frame and every capture length n the dissector reports exactly expectedAt f n) and expectedAt_below / trunc_capture (that message is below the full one: every scalar column unset or the true value, every list column a prefix, one size per reported layer with only the last possibly smaller; Etype / VlanId may be those of an outer L2 header), expectedAt_mono. The frame oracle at every capture length ties model and code.",
 )
 
 PROPS["C06"] = dict(
